@@ -15,12 +15,15 @@
    Still open: table-valued keys (compared by content, mutable: no invariant of this shape survives them) and
    dangling addresses as keys; for NaN keys only the behaviour of the table operations is described
    (C07_vm_nan_key_table, C07_vm_set_property_nan), not a weaker invariant that runs with NaN keys preserve;
-   the legacy budget rule (run_legacy); states INSIDE a native between two nested runs are covered only by the
-   native lemmas of VmTableNatives (not listed in the run's state list). *)
+   the legacy budget rule (run_legacy); the states of a run's nested runs are covered by two theorems together
+   (C07_vm_nested_runs_entered_with_invariant: natives enter nested runs only in states with the invariant;
+   C07_vm_tables_wf_nested_run: a run entered in such a state passes only through such states), not by one list
+   of all states of all nesting levels; states INSIDE a native between two nested runs are covered by the native
+   lemmas of VmTableNatives only. *)
 From Coq Require Import Arith NArith ZArith List Bool.
 Import ListNotations.
 From Cao Require Import Table TableProofs.
-From Cao Require Import ListUtil Bits Stacks Vm VmProofs C04VmProofs VmTableProofs VmTableKeys VmTableInstr VmTableNatives VmTableRun.
+From Cao Require Import ListUtil Bits Stacks Vm VmProofs C04VmProofs VmTableProofs VmTableKeys VmTableInstr VmTableNatives VmTableRun VmTableRunOnly.
 
 (* every history of insert / remove / append / pop / get / nth-key / len / iterate / keys on a table
    that starts empty gives exactly the results of the insertion-ordered association list
@@ -444,6 +447,26 @@ Theorem C07_vm_run_set_property_in_order : forall F bld P budget s,
     (run_states F bld P budget s).
 Proof. exact run_set_property_in_order. Qed.
 Print Assumptions C07_vm_run_set_property_in_order.
+
+(* nested runs are entered only in states with the invariant: when the state of an instruction has it and the
+   nested run keeps it (the contract, proved for run_at_k at every depth by C07_vm_key_checked_run_tables_wf and
+   for run_at on runs without a failed check by C07_vm_tables_wf_nested_run), the result of the instruction -
+   whatever natives it calls, however often they re-enter - does not depend on what the nested run does on states
+   WITHOUT the invariant.  So the runs that natives start are covered by C07_vm_tables_wf_nested_run. *)
+Theorem C07_vm_nested_runs_entered_with_invariant : forall F bld P (re re' : N -> state -> rres),
+  (forall ip s, tables_wf F (st_heap s) -> re ip s = re' ip s) ->
+  (forall ip s, tables_wf F (st_heap s) ->
+     hext (st_heap s) (st_heap (rres_state (re' ip s))) /\ tables_wf F (st_heap (rres_state (re' ip s)))) ->
+  forall ip0 s, tables_wf F (st_heap s) -> step F bld P re ip0 s = step F bld P re' ip0 s.
+Proof. exact step_reenter_only_wf. Qed.
+Print Assumptions C07_vm_nested_runs_entered_with_invariant.
+(* its hypotheses hold for the nested runs of the key-checked VM *)
+Example C07_vm_nested_contract_nonvacuous : forall F bld P d ip s,
+  tables_wf F (st_heap s) ->
+  run_at_k F bld P d ip s = run_at_k F bld P d ip s /\
+  hext (st_heap s) (st_heap (rres_state (run_at_k F bld P d ip s))) /\
+  tables_wf F (st_heap (rres_state (run_at_k F bld P d ip s))).
+Proof. intros F bld P d ip s W. split; [reflexivity|]. exact (run_at_k_contract F bld P d ip s W). Qed.
 
 (* keyed by value: on the key domain the map part's key test is equality of key values (strings by content) *)
 Theorem C07_vm_key_is_value : forall F h a b, vkey F h a -> vkey F h b ->
